@@ -179,7 +179,7 @@ func isErrNoController(err error) bool {
 // the admin client configuration
 func (ca *clusterAdmin) retryOnError(retryable func(error) bool, fn func() error) error {
 	var err error
-	for attempt := 0; attempt < ca.conf.Admin.Retry.Max; attempt++ {
+	for attempt := 0; attempt == 0 || attempt < ca.conf.Admin.Retry.Max; attempt++ {
 		err = fn()
 		if err == nil || !retryable(err) {
 			return err
